@@ -1,4 +1,4 @@
-"""C20 -- completion proposals (clauses R20.1-R20.11)."""
+"""C20 -- completion proposals (clauses R20.1-R20.12)."""
 from __future__ import annotations
 
 import ast
@@ -335,3 +335,37 @@ def check(ctx, res) -> None:
     from .c01 import call_keyword_rule
 
     call_keyword_rule(ctx, res, "R20.11")
+
+    # ---- R20.12 the scope a NAME AT AN OFFSET is evaluated in is found by offset.  A line does not identify a scope: two
+    # comprehensions can share a line, and a continuation line may be indented less than the `def` it belongs to (the
+    # line-based finder goes by the indentation of the line it is given).
+    scope_by_offset_rule(ctx, res, "R20.12")
+
+
+def scope_by_offset_rule(ctx, res, rule: str) -> None:
+    idx = ctx.idx
+    g = idx.need_func("rope.base.evaluate.ScopeNameFinder.get_primary_and_pyname_at")
+    off = next((p for p in g.call_params() if "offset" in p), None)
+    evals = [c for c in calls_in(g.node) if call_name(c).startswith("eval_str") and c.args]
+    if off is None or not evals:
+        raise AnalysisError("anchor=get_primary_and_pyname_at: offset parameter / generic evaluation not found")
+    line_vars = {t.id for x in walk_local(g.node) if isinstance(x, ast.Assign) and isinstance(x.value, ast.Call)
+                 and call_name(x.value) in ("get_line_number", "count") for t in x.targets if isinstance(t, ast.Name)}
+    n = 0
+    for c in evals:
+        sc = c.args[0]
+        defs = [x.value for x in walk_local(g.node) if isinstance(x, ast.Assign) and isinstance(sc, ast.Name)
+                and any(isinstance(t, ast.Name) and t.id == sc.id for t in x.targets)] if isinstance(sc, ast.Name) else [sc]
+        for d in defs:
+            if not isinstance(d, ast.Call):
+                continue
+            n += 1
+            names = {y.id for a in list(d.args) + [k.value for k in d.keywords] for y in ast.walk(a) if isinstance(y, ast.Name)}
+            by_offset = off in names
+            by_line = bool(names & line_vars) and not by_offset
+            res.add(rule, f"get_primary_and_pyname_at|scope-by-offset#{n}", by_offset, f"{g.unit.rel}:{d.lineno}",
+                    "the scope in which the name is evaluated is looked up by the offset" if by_offset else
+                    f"the scope in which the name is evaluated is looked up with `{ast.unparse(d)}`" + (", by LINE" if by_line else "")
+                    + ": a name on a continuation line indented less than its `def`, or in one of two comprehensions on the same line, is evaluated "
+                    "in the wrong scope -- go-to-definition answers nothing (or another binding) for a parameter or local", function=g.qualname)
+    res.floor(rule, "scope lookups feeding the name evaluation", n, 1)
